@@ -52,6 +52,7 @@ def run(F, R):
     s1_selector(F, R, roles, h12, h10)
     s10_packet_view(F, R, roles, h12, h10)
     s13_send_always_submits(F, R, M, roles)
+    s15_tx_buffer_is_callers_bytes(F, R)
     # S14: one used buffer = one frame rests on mergeable receive buffers not being negotiated: the net driver's supported set does
     # not contain MRG_RXBUF (it never reads num_buffers) - C08.H2
     from .C08 import h2_supported
@@ -171,6 +172,26 @@ def s13_send_always_submits(F, R, M, roles):
         R.check(bad is None and bool(paths), 'S13', '%s:always-submits' % fid, where, 'every non-error return follows the submission of the frame',
                 '%s: %s (the caller is told the frame was sent)' % (b['name'], bad))
     R.count('blocking_senders', n)
+
+
+def s15_tx_buffer_is_callers_bytes(F, R):
+    """A transmit buffer built from the caller's bytes holds exactly those bytes: the conversions of the network module that turn a
+    byte slice into the owned transmit buffer only copy (Vec::from / to_vec / extend from the parameter) - they never resize, pad,
+    truncate or push."""
+    n = 0
+    for b in sorted(F.bodies.values(), key=lambda x: x['id']):
+        if not F.handwritten(b) or 'device::net::net_buf' not in b['id'] or b['kind'] != 'AssocFn' or b['arg_count'] != 1:
+            continue
+        if not (b['locals'][1]['ty'].endswith('[u8]') and 'TxBuffer' in b['locals'][0]['ty']):
+            continue
+        n += 1
+        sg = supergraph(F, b['id'], tag='flat', max_depth=0)
+        bad = [c.d['fn'] for c in sg.calls(lambda d: d.get('fn', '').startswith('alloc::vec::Vec::') and d['fn'].rsplit('::', 1)[1] in
+                                         ('resize', 'resize_with', 'push', 'truncate', 'insert', 'pop', 'set_len', 'extend_from_within'))]
+        R.check(not bad, 'S15', '%s:tx-buffer-is-callers-bytes' % b['id'], fn_site(F, b['id']), 'only copies the parameter',
+                '%s builds the transmit buffer with %s: the frame handed to the device is not exactly the caller\'s bytes (padding / truncation)' % (
+                    b['name'], [x.rsplit('::', 1)[1] for x in bad]))
+    R.count('tx_buffer_ctors', n)
 
 
 def s1_selector(F, R, roles, h12, h10):
